@@ -111,12 +111,15 @@ func Walk(ctx context.Context, node hclsyntax.Node, nodeSchema schema.Schema, w 
 
 		var blockBodySchema schema.Schema = nil
 		bSchema, ok := nodeSchema.(*schema.BlockSchema)
-		if ok && bSchema.Body != nil {
+		if ok {
 			mergedSchema, result := schemahelper.MergeBlockBodySchemas(nodeType.AsHCLBlock(), bSchema)
-			if result == schemahelper.LookupFailed || result == schemahelper.LookupPartiallySuccessful {
-				blockCtx = schemacontext.WithUnknownSchema(blockCtx)
+			// a block without (static) body may still have dependent body
+			if bSchema.Body != nil || result == schemahelper.LookupSuccessful || result == schemahelper.LookupPartiallySuccessful {
+				if result == schemahelper.LookupFailed || result == schemahelper.LookupPartiallySuccessful {
+					blockCtx = schemacontext.WithUnknownSchema(blockCtx)
+				}
+				blockBodySchema = mergedSchema
 			}
-			blockBodySchema = mergedSchema
 		}
 
 		blockCtx = schemacontext.WithBlockNestingLevel(blockCtx, blkNestingLvl+1)
